@@ -187,3 +187,29 @@ Theorem c02_exact_on_flat_derived_tables_partial : forall noise e s,
   script_pairs e false [] [r_stmt noise s] = spec_pairs (e_cfg e) s.
 Proof. exact lemma_B_derived_flat_restricted. Qed.
 Print Assumptions c02_exact_on_flat_derived_tables_partial.
+
+(** ... step 5c, third part (Tree/LemmaB5c3.v): the one-derived-table case as an UNCONDITIONAL instance of the (repaired)
+    [lemma_B_statement] - all conditions derived from [colshape]; the only extra clause is the one [sel_tables_syntactic]
+    also has (no base table twice inside the derived table) - and the flat fragment with unresolved inner columns. *)
+From SV Require Import Tree.LemmaB5c3.
+
+Theorem c02_exact_on_one_derived_table : forall noise e s,
+  noise_ok noise = true -> env_ok e = true -> stmt_ok s = true -> sshape s = true -> colshape s = true ->
+  one_derived_syntactic2 s = true -> script_pairs e false [] [r_stmt noise s] = spec_pairs (e_cfg e) s.
+Proof. exact lemma_B_one_derived_colshape. Qed.
+Print Assumptions c02_exact_on_one_derived_table.
+
+Theorem c02_exact_on_flat_derived_tables_unresolved_partial : forall noise e s,
+  noise_ok noise = true -> env_ok e = true -> derived_flat_shape_u noise s = true ->
+  script_pairs e false [] [r_stmt noise s] = spec_pairs (e_cfg e) s.
+Proof. exact lemma_B_derived_flat_u_restricted. Qed.
+Print Assumptions c02_exact_on_flat_derived_tables_unresolved_partial.
+
+(** one level of WHERE .. IN, closed: INSERT with or without column list / CTAS / VIEW, unresolved columns in both scopes -
+    the unconditional instance of [lemma_B_statement] on the pure shape [wherein1c_syntactic] (Tree/LemmaB5a5.v) *)
+From SV Require Import Tree.LemmaB5a5.
+Theorem c02_exact_on_select_where_in_full : forall noise e s,
+  noise_ok noise = true -> env_ok e = true -> stmt_ok s = true -> sshape s = true -> colshape s = true ->
+  wherein1c_syntactic s = true -> script_pairs e false [] [r_stmt noise s] = spec_pairs (e_cfg e) s.
+Proof. exact lemma_B_wherein1cu_colshape. Qed.
+Print Assumptions c02_exact_on_select_where_in_full.
